@@ -875,6 +875,10 @@ def moved_panic_reason(crate, fn, kind, allowed, present):
     site that was moved into a helper: fn is not `pub`, not a trait method, has callers, and every caller has a reviewed
     entry of the same kind whose own site no longer exists. allowed/present: sets of (function, kind)."""
     base = re.sub(r"(::\{closure#\d+\})+$", "", fn)
+    # the same function, the site merely moved into / out of one of its closures
+    for a in allowed:
+        if a[1] == kind and a != (fn, kind) and re.sub(r"(::\{closure#\d+\})+$", "", a[0]) == base and a not in present:
+            return "reviewed %s site of %s moved between the function and its closures" % (kind, base)
     it = crate.item(base)
     if it is None or it.get("vis") == "Public" or it.get("parent_kind", "").startswith("Impl { of_trait: true"):
         return None
